@@ -33,17 +33,22 @@ vars == <<c, o, st>>
 UniformCases == [kind : {"uniform"}, h : 1..12, tas : Tas, u : {s * x : s \in Signs, x \in W}, v : {s * x : s \in Signs, x \in W}]
 FieldCases == [kind : {"field"}, h : {1, 2, 6, 9, 11}, tas : {200}, f : Fields \ {"uniform"}, u0 : {0, 15}, v0 : {0, -20},
                hp : 0..2, hla : 0..2, hlo : 0..2]
+\* which heading counts: the explicitly given one (h) if there is one, else
+\* the azimuth of the ground-track point (th); a given heading of 0 degrees
+\* (h = 1) is a heading like any other
+HeadingCases == [kind : {"uniform"}, h : 1..12, th : 1..12, given : BOOLEAN, tas : {200}, u : {15, -20}, v : {25, 0}]
+Eff(x) == IF "given" \in DOMAIN x THEN (IF x.given THEN x.h ELSE x.th) ELSE x.h
 OutsideCases == [kind : {"outside"}, h : {2}, tas : {200}, side : {"north", "south", "east", "west", "above", "below"}]
 WindOf(x) == IF x.kind = "uniform" THEN <<I(x.u), I(x.v)>>
              ELSE <<Add(I(x.u0), Tri(LAMBDA p, la, lo : U(x.f, p, la, lo), x.hp, x.hla, x.hlo)),
                     Add(I(x.v0), Tri(LAMBDA p, la, lo : V(x.f, p, la, lo), x.hp, x.hla, x.hlo))>>
-Gs2(x) == LET d == Dirs[x.h]  wv == WindOf(x)
+Gs2(x) == LET d == Dirs[Eff(x)]  wv == WindOf(x)
               e == Add(I((x.tas \div 5) * d[1]), wv[1])      \* east component
               n == Add(I((x.tas \div 5) * d[2]), wv[2])      \* north component
           IN Add(Sq(e), Sq(n))
 Out(x) == IF x.kind = "outside" THEN [refused |-> TRUE, gs2 |-> I(0), w2 |-> I(0)]
           ELSE [refused |-> FALSE, gs2 |-> Gs2(x), w2 |-> Add(Sq(WindOf(x)[1]), Sq(WindOf(x)[2]))]
-WSpec == c \in (UniformCases \cup FieldCases \cup OutsideCases) /\ o = <<>> /\ st = "pending"
+WSpec == c \in (UniformCases \cup FieldCases \cup OutsideCases \cup HeadingCases) /\ o = <<>> /\ st = "pending"
          /\ [][st = "pending" /\ st' = "done" /\ o' = Out(c) /\ UNCHANGED c]_vars
 Done == st = "done"
 
@@ -52,13 +57,16 @@ NoWindIsAirspeed == (Done /\ c.kind = "uniform" /\ c.u = 0 /\ c.v = 0) => o.gs2 
 TriangleBounds == (Done /\ ~o.refused) =>
    LET dd == Sub(Sub(o.gs2, I(c.tas * c.tas)), o.w2) IN Le(Sq(dd), Mul(I(4 * c.tas * c.tas), o.w2))
 \* pure tailwind adds, pure headwind subtracts its full speed
-TailHead == (Done /\ c.kind = "uniform") =>
+TailHead == (Done /\ c.kind = "uniform" /\ "th" \notin DOMAIN c) =>
    LET d == Dirs[c.h] IN
    \A k \in {-5, -4, -3, 3, 4, 5} :
      (c.u * 5 = k * d[1] * 5 /\ c.v * 5 = k * d[2] * 5 /\ (d[1] = 0 \/ d[2] = 0 \/ TRUE)) =>
         o.gs2 = I((c.tas + k * 5) * (c.tas + k * 5))
 \* rotating heading and wind together by 90 degrees leaves the ground speed unchanged
 Rot(h) == ((h + 2) % 12) + 1
-Rotation == (Done /\ c.kind = "uniform") =>
+Rotation == (Done /\ c.kind = "uniform" /\ "th" \notin DOMAIN c) =>
    o.gs2 = Gs2([c EXCEPT !.h = Rot(c.h), !.u = c.v, !.v = -c.u])
+\* the track azimuth is irrelevant when a heading is given, and the only thing that counts when none is
+ExplicitHeadingWins == (Done /\ "th" \in DOMAIN c) =>
+   o.gs2 = Gs2([kind |-> "uniform", h |-> (IF c.given THEN c.h ELSE c.th), tas |-> c.tas, u |-> c.u, v |-> c.v])
 =============================================================================
